@@ -102,8 +102,12 @@ CLAIMED = {
     'C04': dict(
         text='Every procedure assigning jobs.state (closed-world scan) is executed symbolically: every point and set-oriented rewrite of jobs.state is an allowed lifecycle transition for all rows and arguments, '
         'terminal states are absorbing, the tally statement of mark_job_complete runs exactly on the non-terminal->terminal paths, touches exactly anc*(group) and adds one completed plus exactly one outcome matching new_state; '
-        'terminal(new_state) is discharged at the Python call sites; first reads of written tables take a lock.',
-        note=COMMON_NOTE + 'Assumed: each procedure call is atomic (serialisable isolation; justified by the lock-discipline obligations where stated); MySQL NULL/boolean semantics as encoded in vc/sqlvc.py; integer column widths sufficient; SQL cannot be executed in this sandbox so counter-models are rows (VIOLATION ... no-failing-input-found). ' + "Invariant N' of C05 is a hypothesis of the children statement; commit_batch_update is outside the subset (GROUP BY derived tables) and listed undecided.",
+        'terminal(new_state) is discharged at the Python call sites; first reads of written tables take a lock. '
+        'A Creating/Running job is rewritten to Ready only when its own current attempt (jobs.attempt_id) is one the call withdraws (unschedule_job: the named attempt; deactivate_instance: the attempts on that instance; nobody else), and that attempt is ended by the same call. '
+        'The Python caller driver.job.mark_job_complete is under a pyvc contract: one CALL with the reported state; batch / job-group callbacks and the kill of a job-private instance happen at most once and only for the row '
+        'rc = 0 with a non-terminal old_state, which the procedure answers on exactly its completing paths.',
+        note=COMMON_NOTE + 'Assumed: each procedure call is atomic (serialisable isolation; justified by the lock-discipline obligations where stated); MySQL NULL/boolean semantics as encoded in vc/sqlvc.py; integer column widths sufficient; SQL cannot be executed in this sandbox so counter-models are rows (VIOLATION ... no-failing-input-found). ' + "Invariant N' of C05 is a hypothesis of the children statement; commit_batch_update is outside the subset (GROUP BY derived tables) and listed undecided. "
+        'Python side: db.execute_and_fetchone is assumed to return the result row of the CALL (row kinds are read off the real procedure) or to raise; the bodies of notify_batch_job_complete / notify_job_group_on_job_complete / Instance.kill are not verified; counterexamples of the Python contract are replayed on the real coroutine (contracts/native/c04_replay.py, bounded enumeration).',
         technique='procedure contracts (transition relation) on the real SQL text, sqlvc -> z3',
         engine='sqlvc',
         design_ref='7/C04, 2.3',
